@@ -71,7 +71,7 @@ def evsOfRpc (kind client cls : String) (cmd ans : List String) : List Ev :=
   let answered := fate == .answered
   let locks : List Ev := if answered then (lockedIn answer).map fun (st, ttl) => Ev.lockSeen client st ttl else []
   let main : List Ev :=
-    match cmd with
+    match (if cmd.length == 14 && cmd.headD "" == "prewrite" then cmd.take 13 else if cmd.length == 8 && cmd.headD "" == "status" then cmd.take 7 else cmd) with
     | ["prewrite", p, st, _fu, _ttl, mc, _sz, _ao, _rs, ms, asyncT, onepcT, secT] =>
       match hx p, st.toNat?, mc.toNat? with
       | some p, some st, some mc =>
